@@ -30,6 +30,8 @@ type variant struct {
 	primaryLast   bool   // last primary in precedence instead of first
 	beforeReverse bool   // :before daemons in reverse precedence order
 	varLast       bool   // variable default from the last provider in precedence
+	continueOnce  bool   // a whopper that continues twice runs what it wraps once
+	nilAbsent     bool   // a declaration with default nil (variable or keyword) counts as no declaration when a later flavor gives a value
 }
 
 var realRef = variant{name: "reference"}
@@ -43,6 +45,8 @@ var refMutants = []variant{
 	{name: "least-specific-primary", primaryLast: true},
 	{name: "before-daemons-reversed", beforeReverse: true},
 	{name: "default-from-last-provider", varLast: true},
+	{name: "nil-default-taken-for-no-declaration", nilAbsent: true},
+	{name: "second-continue-whopper-ignored", continueOnce: true},
 }
 
 // precedence of flavor f (indices), not including vanilla-flavor.
@@ -119,7 +123,7 @@ func (v variant) expectSend(comps [][]int, ms []meth, f int) (trace []string, re
 	var ws, bs, as []int
 	prim := -1
 	for _, g := range p {
-		if hasMeth(ms, g, 'w') {
+		if hasMeth(ms, g, 'w') || hasMeth(ms, g, 'v') {
 			ws = append(ws, g)
 			handled = true
 		}
@@ -154,22 +158,42 @@ func (v variant) expectSend(comps [][]int, ms []meth, f int) (trace []string, re
 	if !v.afterForward {
 		as = rev(as)
 	}
-	for _, g := range ws {
-		trace = append(trace, "wi"+strconv.Itoa(g))
-	}
+	var inner []string
 	for _, g := range bs {
-		trace = append(trace, "b"+strconv.Itoa(g))
+		inner = append(inner, "b"+strconv.Itoa(g))
 	}
 	if 0 <= prim {
-		trace = append(trace, "p"+strconv.Itoa(prim))
+		inner = append(inner, "p"+strconv.Itoa(prim))
 		ret = "r" + strconv.Itoa(prim)
 	}
 	for _, g := range as {
-		trace = append(trace, "a"+strconv.Itoa(g))
+		inner = append(inner, "a"+strconv.Itoa(g))
 	}
-	for _, g := range rev(ws) {
-		trace = append(trace, "wo"+strconv.Itoa(g))
+	// whopper i wraps everything below it; a whopper of kind v continues twice (everything below it runs twice)
+	var run func(i int)
+	run = func(i int) {
+		if i == len(ws) {
+			trace = append(trace, inner...)
+			return
+		}
+		g := ws[i]
+		id := strconv.Itoa(g)
+		if hasMeth(ms, g, 'v') && !(v.continueOnce) {
+			trace = append(trace, "vi"+id)
+			run(i + 1)
+			run(i + 1)
+			trace = append(trace, "vo"+id)
+			return
+		}
+		k := "w"
+		if hasMeth(ms, g, 'v') {
+			k = "v"
+		}
+		trace = append(trace, k+"i"+id)
+		run(i + 1)
+		trace = append(trace, k+"o"+id)
 	}
+	run(0)
 	return
 }
 
@@ -181,8 +205,19 @@ type fopt struct {
 	g, s, i    bool // bare :gettable- / :settable- / :inittable-instance-variables
 	k          bool // (:init-keywords :k)
 	yi         bool // (:inittable-instance-variables y)  [explicit list form]
+	xnil       bool // x is declared (x nil): an explicit default nil
+	xplain     bool // x is declared as a bare symbol: no default given
+	kd, kn     bool // (:default-init-plist (:k <30+i>)) / (:default-init-plist (:k nil)): keyword :k with a default value
+	xd         int  // when not 0: the default of x is xd+i instead of 10+i (a second generation of the flavor)
 	token      string
 	hasOptions bool
+}
+
+func (o fopt) xdef(f int) int {
+	if o.xd != 0 {
+		return o.xd + f
+	}
+	return xDefault(f)
 }
 
 var optTokens = map[string]fopt{
@@ -195,7 +230,13 @@ var optTokens = map[string]fopt{
 	"k":    {k: true},
 	"xk":   {x: true, k: true},
 	"y":    {y: true, yi: true},
+	"xn":   {x: true, xnil: true},
+	"xu":   {x: true, xplain: true},
+	"kd":   {kd: true},
+	"kn":   {kn: true},
 }
+
+func kDefault(f int) int { return 30 + f }
 
 func xDefault(f int) int { return 10 + f }
 func yDefault(f int) int { return 20 + f }
@@ -203,7 +244,12 @@ func yDefault(f int) int { return 20 + f }
 // varExpect is what the statement demands of an instance of flavor f. A nil
 // pointer / false flag means "no demand" (S2).
 type varExpect struct {
-	xDefault     *int // default of x (first flavor in precedence declaring x)
+	xDefault     *int // default of x (first flavor in precedence declaring x) when that is a number
+	xNil         bool // the first flavor in precedence declaring x declares (x nil): the default is nil
+	xPlain       bool // the first flavor in precedence declaring x gives no default: nothing is demanded of the value (S2)
+	kDefault     *string // default value of keyword :k when the first flavor in precedence declaring it does so in :default-init-plist
+	kNilShadows  bool // ... and that default is nil while a later flavor gives a value
+	xNilShadows  bool // (x nil) first, a number later in precedence
 	yDefault     *int
 	xGettable    bool // some flavor in precedence declares the getter => (send i :x) answers x
 	xSettable    bool
@@ -219,14 +265,30 @@ type varExpect struct {
 func (v variant) expectVars(comps [][]int, opts []fopt, f int) (e varExpect) {
 	p := v.precedence(comps, f)
 	nx := 0
+	xSeen, kSeen := false, false
 	for _, g := range p {
 		o := opts[g]
 		if o.x {
 			nx++
-			if e.xDefault == nil || v.varLast {
-				d := xDefault(g)
-				e.xDefault = &d
+			skip := v.nilAbsent && (o.xnil || o.xplain)
+			if (!xSeen || v.varLast) && !skip {
+				xSeen = true
+				e.xDefault, e.xNil, e.xPlain = nil, false, false
+				switch {
+				case o.xnil:
+					e.xNil = true
+				case o.xplain:
+					e.xPlain = true
+				default:
+					d := o.xdef(g)
+					e.xDefault = &d
+				}
 				e.xInherited = g != f
+			} else if e.xNil && !o.xnil && !o.xplain {
+				e.xNilShadows = true
+			}
+			if skip && !xSeen {
+				e.xNil = true // unless a later flavor gives a value
 			}
 			if o.i {
 				e.xInittable = true
@@ -253,10 +315,24 @@ func (v variant) expectVars(comps [][]int, opts []fopt, f int) (e varExpect) {
 				e.accInherited = true
 			}
 		}
-		if o.k {
+		if o.k || o.kd || o.kn {
 			e.kAccepted = true
-			if g != f && !opts[f].k {
+			if g != f && !(opts[f].k || opts[f].kd || opts[f].kn) {
 				e.kInherited = true
+			}
+			skip := v.nilAbsent && (o.kn || o.k)
+			if !kSeen && !skip {
+				kSeen = true
+				switch {
+				case o.kd:
+					d := strconv.Itoa(kDefault(g))
+					e.kDefault = &d
+				case o.kn:
+					d := "nil"
+					e.kDefault = &d
+				}
+			} else if kSeen && e.kDefault != nil && *e.kDefault == "nil" && o.kd {
+				e.kNilShadows = true
 			}
 		}
 	}
@@ -618,7 +694,7 @@ func expectTable(prec []int, ms []meth) string {
 	for _, g := range prec {
 		s := ""
 		for _, k := range []byte{'w', 'b', 'p', 'a'} {
-			if hasMeth(ms, g, k) {
+			if hasMeth(ms, g, k) || (k == 'w' && hasMeth(ms, g, 'v')) {
 				s += string(k)
 			}
 		}
